@@ -3,8 +3,10 @@
 import gen_pyfuns
 import gen_dict
 import gen_commands
+import gen_psm
 
 if __name__ == "__main__":
     print("PyFuns:", gen_pyfuns.generate()[:2])
     print("Dictionary:", gen_dict.generate()[0])
     print("Commands:", gen_commands.generate()[0])
+    print("Psm:", gen_psm.generate())
